@@ -621,32 +621,49 @@ pub(crate) fn k_seek_filter() {
     vk_assert!(last.is_some(), "the first frame (sample 0) is always kept");
 }
 
-// ------------------------------------------------------------------ write_residuals: partition order legality on very short blocks
-// contract: whatever partition layout the search picks, the partition order written is legal for the block
-// (RFC 9639 §9.2.7: block divisible by 2^po and block >> po > predictor order) — the region where a block is
-// at most twice the predictor order.
-macro_rules! k_write_residuals_short {
-    ($name:ident, $n:expr, $order:expr, $maxpo:expr, $unw:expr) => {
-        #[kani::proof]
-        #[kani::unwind($unw)]
-        #[kani::stub(f64::log2, stub_log2)]
-        #[kani::stub(f64::ceil, stub_ceil)]
-        pub(crate) fn $name() {
-            let mut r = [0i32; $n];
-            let mut i = 0;
-            while i < $n { r[i] = any_i64_within(16) as i32; i += 1; }
-            let options = EncoderOptions { max_partition_order: $maxpo, mid_side: false, seektable_interval: None, max_lpc_order: None,
-                window: Window::Rectangle, exhaustive_channel_correlation: false, use_rice2: false };
-            let mut t: Tape<16> = Tape::new();
-            let res = write_residuals(&options, &mut t, $order, &r);
-            vk_undecided!(!t.overflow, "field tape capacity exceeded");
-            if res.is_ok() {
-                let po = t.f[1].val as u32;
-                vk_assert!(t.f[1].kind == K_U && t.f[1].width == 4, "4-bit partition order field");
-                vk_assert!(spec::part_ok(($n + $order) as u32, $order as u32, po), "partition order written is not legal for this block size and predictor order");
-            }
-            kani::cover!(res.is_ok(), "residuals written");
-        }
-    };
+// write_residuals with a partition search (max partition order >= 1) is out of Kani's reach: the candidate
+// iterator chain in best_partitions runs CBMC out of memory even for a 4-sample block with concrete residuals
+// (measured twice).  Its layout rule is covered by the Verus obligation V-part-encoder-filter (lemma + text
+// anchor) and by the native witness /verif/native/c01_short_block_order2.rs.
+
+// ------------------------------------------------------------------ Encoder::new (C15 parameter validation, C14 provisional header)
+// contract (metadata writer replaced by "accepts the block list"): for every sample rate, channel count,
+// bits-per-sample 1..=32 and declared total:
+//   Ok  <=> rate < 2^20, 1 <= channels <= 8, total (if declared) < 2^36;   never panics
+//   Ok => provisional STREAMINFO carries exactly these values, min == max block size == the option,
+//         unknown frame sizes, no MD5; counters start at zero; Rice2 enabled iff bits-per-sample > 16
+fn stub_write_blocks<B: crate::metadata::AsBlockRef>(_w: impl std::io::Write, _blocks: impl IntoIterator<Item = B>) -> Result<(), Error> {
+    Ok(())
 }
-k_write_residuals_short!(k_write_res_short_b4_o2, 2, 2, 2, 6);
+
+#[kani::proof]
+#[kani::unwind(8)]
+#[kani::stub(crate::metadata::write_blocks, stub_write_blocks)]
+pub(crate) fn k_encoder_new_validation() {
+    let rate: u32 = kani::any();
+    let bps: u32 = kani::any();
+    kani::assume(bps >= 1 && bps <= 32);
+    let channels: u8 = kani::any();
+    let declared: bool = kani::any();
+    let total: u64 = kani::any();
+    kani::assume(total >= 1);
+    let bs: u16 = kani::any();
+    kani::assume(bs >= 16);
+    let options = Options::fast().no_padding().no_seektable().block_size(bs).unwrap();
+    let r = Encoder::new(LogSink { written: 0, seeks: 0 }, options, rate, sbc::<32>(bps), channels, if declared { NonZero::new(total) } else { None });
+    let want_ok = rate < (1 << 20) && channels >= 1 && channels <= 8 && (!declared || total < (1 << 36));
+    match r {
+        Ok(mut e) => {
+            vk_assert!(want_ok, "Encoder::new accepted parameters outside the documented ranges");
+            let si = e.blocks.streaminfo();
+            vk_assert!(si.sample_rate == rate && si.channels.get() == channels && u32::from(si.bits_per_sample) == bps, "provisional STREAMINFO carries the stream parameters");
+            vk_assert!(si.minimum_block_size == bs && si.maximum_block_size == bs, "provisional STREAMINFO advertises the configured block size");
+            vk_assert!(si.total_samples.map(|t| t.get()) == if declared { Some(total) } else { None }, "declared total recorded, otherwise unknown");
+            vk_assert!(si.md5.is_none() && si.minimum_frame_size.is_none() && si.maximum_frame_size.is_none(), "nothing is claimed about data not yet written");
+            vk_assert!(e.samples_written == 0 && e.frame_number.0 == 0 && e.writer.count == 0 && e.seekpoints.is_empty(), "counters start at zero");
+            vk_assert!(e.options.use_rice2 == (bps > 16), "5-bit Rice parameters only above 16 bits per sample");
+            e.finalized = true; // keep Drop from running finalize in the harness
+        }
+        Err(_) => vk_assert!(!want_ok, "Encoder::new rejected documented parameters"),
+    }
+}
